@@ -190,7 +190,12 @@ Echo(S, a) == IF Len(a) = 1 THEN SOk(S, RBulk(a[1])) ELSE SOk(S, EArg)
 Hello(S, c, a) ==
     LET v == ArgInt(a[1])
     IN  IF Len(a) = 0 THEN SOk(S, [t |-> "hello", proto |-> S.conn[c].proto])
-        ELSE IF Len(a) > 1 THEN SOk(S, RErr("*"))        \* AUTH / SETNAME options are not modelled
+        \* HELLO protover SETNAME name: the connection is switched and named (the name as for CLIENT SETNAME); an invalid
+        \* name is refused after the switch (Redis validates before; either order is accepted: the reply is an error)
+        ELSE IF Len(a) = 3 /\ Is(a[2], "SETNAME") /\ v.ok /\ v.v \in {2, 3} THEN
+             (IF \E i \in 1..Len(a[3]) : a[3][i] < 33 THEN SOk(S, RErr("*"))
+              ELSE SOk([S EXCEPT !.conn[c].proto = v.v, !.conn[c].name = a[3]], [t |-> "hello", proto |-> v.v]))
+        ELSE IF Len(a) > 1 THEN SOk(S, RErr("*"))        \* AUTH is not modelled
         ELSE IF v.ok /\ v.v \in {2, 3} THEN SOk([S EXCEPT !.conn[c].proto = v.v], [t |-> "hello", proto |-> v.v])
         ELSE IF v.ok /\ On("D_HELLO_ACCEPTS_ANY_VERSION")
              THEN SDev([S EXCEPT !.conn[c].proto = v.v], [t |-> "hello", proto |-> v.v], "D_HELLO_ACCEPTS_ANY_VERSION")
